@@ -187,6 +187,8 @@ class Models(object):
         return None
 
     def identical(self, ex, st, a, b):
+        if not (isinstance(a, VObj) and isinstance(b, VObj)):
+            return None
         ia, ib = st.get(a, "ident"), st.get(b, "ident")
         if ia is not None and ib is not None:
             return tm.eq(ia.t, ib.t)
